@@ -14,13 +14,14 @@ from vlib import worldops
 
 ID = 'C04'
 LEVEL = 'fault_enumeration'
-BUDGET = {'quick': 300, 'thorough': 1500}
+BUDGET = {'quick': 250, 'thorough': 1500}
 RULE = ('Hypothesis-generated base histories (dispatch / disable / enable / add_handler / remove_handler over 1-4 '
         'recorder handlers listening to subsets of 4 event names, on a plain EventDispatcher or on a World used '
         'as dispatcher; in some cases every dispatch issued while disabled is repeated 64-150 times: long backlogs, '
         'faults then at sampled positions around the powers of two). Each base history is executed fault-free and then once for EVERY pair (global delivery '
         'position k, fault in {raise RuntimeError, raise Quit, raise SwitchWorld, set dispatch_enabled=False, '
-        're-entrant dispatch_enabled=True, disable-then-enable inside the callback}), '
+        're-entrant dispatch_enabled=True, disable-then-enable inside the callback, disable and dispatch a further '
+        'event inside the callback}), '
         'followed by enable; dispatch; enable; dispatch; enable. Oracle = trace invariants: an event dispatched while '
         'dispatching is enabled (also after a release cut short by an exception) reaches its listeners at once; no '
         'callback while disabled (except the remaining listeners of the very occurrence during which a callback '
@@ -44,7 +45,7 @@ ASSUMPTIONS = [
 ]
 FINDINGS = {}
 EVENTS = ['a', 'b', 'c', 'd']
-FAULTS = ['RuntimeError', 'Quit', 'SwitchWorld', 'disable', 'enable', 'toggle']
+FAULTS = ['RuntimeError', 'Quit', 'SwitchWorld', 'disable', 'enable', 'toggle', 'disable_dispatch']
 ENABLE_BUDGET = 100000
 CLOSING = [['enable'], ['dispatch', 0], ['enable'], ['dispatch', 5], ['enable']]
 
@@ -193,6 +194,17 @@ class Execution:
                 self.d.dispatch_enabled = False
                 self.enabled = False
                 self.tolerate_token = token
+            elif kind == 'disable_dispatch':
+                # the callback disables dispatching and, before it returns, dispatches a further event: that newer
+                # occurrence waits BEHIND whatever was still pending
+                self.d.dispatch_enabled = False
+                self.enabled = False
+                self.tolerate_token = token
+                self._in_bulk = True            # (no amplification of this one)
+                try:
+                    self.op_dispatch(12 + EVENTS.index(ev) if ev in EVENTS else 12)
+                finally:
+                    self._in_bulk = False
             elif kind in ('enable', 'toggle'):
                 # re-entrant enabling from a callback (toggle: disable first).  The nested release legitimately
                 # hands later occurrences to listeners that have not yet seen the current one, so dispatch order
@@ -423,7 +435,7 @@ def run_case(case):
         # long backlogs: faults are injected at the first and last delivery positions and around the powers of two
         positions = sorted({k for k in ([0, 1, m - 1] + [b + d for b in (64, 128, 256) for d in (-1, 0, 1)])
                             if 0 <= k < m})
-        kinds = (0, 3, 5)       # RuntimeError, disable, disable-then-enable
+        kinds = (0, 3, 5, 6)    # RuntimeError, disable, disable-then-enable, disable-and-dispatch
     for k in positions:
         for kind in kinds:
             e = Execution(case, (k, kind)).run()
